@@ -640,3 +640,17 @@ def run(repo: Repo, rep: Report, tier: str) -> None:
                       f"`{subj}.name` is looked up in the global symbol table / the declared names only: inside a function body a parameter of that name is taken for "
                       "whatever the rest of the program calls so", f25.loc(iff))
     rep.floor("C15-R25", "double look-ups of one name", n25, 1)
+
+    # ---------------- R26 --------------------------------------------------------------
+    rep.rule("C15-R26", "a cell's signal type is asked of the lowering's own scoped record first: `_memory_signal_type` consults `self.parent.memory_types` (saved and restored around "
+             "callee bodies and loop iterations) before the analyzer's table, which keeps one entry per name for the whole program — the other order types a function-local "
+             "`Memory prev` with whatever another function's `prev` was declared as")
+    mst = repo.func("MemoryLowerer._memory_signal_type")
+    g26 = CFG(mst.node)
+    own26 = [n for n in walk_local(mst.node) if isinstance(n, ast.If) and "self.parent.memory_types" in norm(n.test)]
+    foreign26 = [n for n in g26.stmts() if any(isinstance(x, ast.Attribute) and norm(x) in ("self.semantic.memory_types", "self.semantic.symbol_table") for x in ast.walk(n))
+                 or ("getattr(self.semantic, 'memory_types'" in norm(n))]
+    foreign26 = [n for n in foreign26 if not isinstance(n, (ast.FunctionDef,))]
+    ok26 = bool(own26) and bool(foreign26) and all(g26.dominates(own26[0], n) for n in foreign26)
+    rep.check(ok26, "C15-R26", "_memory_signal_type: the scoped record is consulted before the program-wide tables", "own record first" if ok26 else
+              "the analyzer's name-keyed table answers before the lowering's own record", mst.loc(foreign26[0]) if foreign26 else mst.loc())
